@@ -296,6 +296,43 @@ def elem_views(e):
         return [x for x in elem_views(e[1]) if x[0] in allow]
     raise ValueError(e)
 
+def res_views(e):
+    """input forms for which the region implements ReserveItems: list of (name, f) where f(var) turns `var: &Owned`
+    into a value of that form (usable inside a closure)"""
+    k = e[0]
+    P = lambda v: f'({v})'
+    if k == 'own': return [('ref', lambda v: v), ('slice', lambda v: f'{P(v)}.as_slice()')]
+    if k in ('mir', 'vecr'): return [('ref', lambda v: v), ('val', lambda v: f'*{P(v)}')]
+    if k in ('str', 'strof'): return [('ref', lambda v: v), ('str', lambda v: f'{P(v)}.as_str()')]
+    if k == 'sl': return [('ref', lambda v: v), ('slice', lambda v: f'{P(v)}.as_slice()')]
+    if k == 'opt':
+        return [('ref', lambda v: v)] + [(f'opt_{n}', (lambda f: lambda v: f'{P(v)}.as_ref().map(|y| {f("y")})')(f)) for n, f in res_views(e[1])]
+    if k == 'res':
+        va = res_views(e[1]); vb = res_views(e[2]); out = [('ref', lambda v: v)]
+        for i in range(max(len(va), len(vb))):
+            na, fa = va[i % len(va)]; nb, fb = vb[i % len(vb)]
+            out.append((f'res_{na}_{nb}', (lambda fa, fb: lambda v: f'match {P(v)} {{ Ok(a) => Ok({fa("a")}), Err(b) => Err({fb("b")}) }}')(fa, fb)))
+        return out
+    if k == 'tup2':
+        vs = [res_views(c) for c in flat_components(e)]; out = [('ref', lambda v: v)]
+        for i in range(max(len(v) for v in vs)):
+            pick = [v[i % len(v)] for v in vs]
+            out.append(('tup_' + '_'.join(p[0] for p in pick),
+                        (lambda pick: lambda v: '(' + ', '.join(p[1](f'&{P(v)}.{j}') for j, p in enumerate(pick)) + ')')(pick)))
+        return out
+    if k == 'con': return res_views(e[1])
+    raise ValueError(e)
+
+def reserve_forms(e):
+    """statements calling reserve_items on `self` for `items: &[Self::Owned]`, one per input form (0 = by reference)"""
+    out = []
+    for n, f in res_views(e):
+        if n == 'ref': out.append((n, 'self.reserve_items(items.iter());'))
+        else: out.append((n, f'self.reserve_items(items.iter().map(|v| {f("v")}));'))
+    if e[0] in ('str', 'strof'):
+        out.append(('refstr', 'let tmp: Vec<&str> = items.iter().map(|v| v.as_str()).collect(); self.reserve_items(tmp.iter());'))
+    return out
+
 def forms(e):
     """the input forms offered for an entry: list of (name, rust expression over `self`, `v: &Owned`)"""
     fs = [('borrowed_item', 'push_borrowed(self, v)')]
@@ -376,6 +413,15 @@ def gen_rust():
             out.append('    fn try_clone_from(&mut self, src: &Self) -> bool { self.clone_from(src); true }')
         if c['reserve_items'] and ref_ok(e):
             out.append('    fn try_reserve_items(&mut self, items: &[Self::Owned]) -> bool { self.reserve_items(items.iter()); true }')
+            rf = reserve_forms(e)
+            out.append('    fn try_reserve_items_form(&mut self, items: &[Self::Owned], form: u32) -> bool {')
+            out.append('        match form {')
+            for i, (fname, code) in enumerate(rf):
+                if i > 0: out.append(f'            {i} => {{ {code} }} // {fname}')
+            out.append(f'            _ => {{ {rf[0][1]} }} // {rf[0][0]}')
+            out.append('        }')
+            out.append('        true')
+            out.append('    }')
         if c['serde']:
             out.append('    fn try_serde(&self) -> Option<Self> { Some(serde_generic(self)) }')
             out.append('    fn try_state(&self) -> Option<U> { Some(crate::state::state_u(self)) }')
